@@ -26,6 +26,7 @@ import GherkinVerif.Spec.Render
 import GherkinVerif.Spec.Render2
 import GherkinVerif.Spec.Render3
 import GherkinVerif.Spec.Render4
+import GherkinVerif.Spec.Render5
 open GV
 
 namespace Driver
@@ -108,6 +109,25 @@ def decExamples : Nat → List (List Nat) → List (List (List Nat) × List Nat 
       let (rows, rest3) := decRows (decNat r) rest2
       (rest.take k, kw, nm, rows) :: decExamples f rest3
     | _ => []
+
+/-- scenarios in groups of five arguments: tags | keyword | name | steps | examples blocks -/
+def decScs4 : List (List Nat) → List (List (List Nat) × List Nat × List Nat × List (List Nat × List Nat × List (List (List Nat))) × List (List (List Nat) × List Nat × List Nat × List (List (List Nat))))
+  | t :: k :: n :: st :: ex :: rest =>
+    (split0 t, k, n, decSteps (st.length + 1) (split0 st), decExamples (ex.length + 1) (split0 ex)) :: decScs4 rest
+  | _ => []
+
+def decBg (a : List Nat) : List (List Nat × List Nat × List (List Nat × List Nat × List (List (List Nat)))) :=
+  match split0 a with
+  | k :: n :: rest => [(k, n, decSteps (rest.length + 1) rest)]
+  | _ => []
+
+/-- rules: tags | keyword | name | background | number of scenarios (decimal) | that many scenario groups -/
+def decRules : Nat → List (List Nat) → List (List (List Nat) × List Nat × List Nat × List (List Nat × List Nat × List (List Nat × List Nat × List (List (List Nat)))) × List (List (List Nat) × List Nat × List Nat × List (List Nat × List Nat × List (List (List Nat))) × List (List (List Nat) × List Nat × List Nat × List (List (List Nat)))))
+  | 0, _ => []
+  | f + 1, t :: k :: n :: bg :: ns :: rest =>
+    let cnt := decNat ns
+    (split0 t, k, n, decBg bg, decScs4 (rest.take (5 * cnt))) :: decRules f (rest.drop (5 * cnt))
+  | _ + 1, _ => []
 
 def pairUp : List (List Nat) → List (List Nat × List Nat)
   | a :: b :: r => (a, b) :: pairUp r
@@ -216,6 +236,18 @@ def handle (op : String) (as : List (List Nat)) : J :=
       let m := Spec.MFeature4.ofLists (split0 (arg as 1)) (arg as 2) (arg as 3) bg (scs4 (as.drop 5))
       .obj [("wf", .bool (Spec.WF4 d m)), ("text", .str (Spec.render4 m)),
             ("expected", (Spec.expectedDoc4 d (arg as 0) m 0).toJ), ("idsAfter", .num (Spec.idsAfter4 m 0))]
+    | _, _ => .obj [("crash", .str (lit "no such dialect"))]
+  | "render5" =>
+    -- as `render4`, with Rules (Spec/Render5.lean, Props/C03Roundtrip5.lean): a sixth argument gives the number of
+    -- feature-level scenarios; after their groups come the rules (`decRules`)
+    match MState.init D (arg as 0), findDialect D (arg as 0) with
+    | some _, some d =>
+      let cnt := decNat (arg as 5)
+      let rest := as.drop 6
+      let m := Spec.MFeature5.ofLists (split0 (arg as 1)) (arg as 2) (arg as 3) (decBg (arg as 4))
+        (decScs4 (rest.take (5 * cnt))) (decRules (rest.length + 1) (rest.drop (5 * cnt)))
+      .obj [("wf", .bool (Spec.WF5 d m)), ("text", .str (Spec.render5 m)),
+            ("expected", (Spec.expectedDoc5 d (arg as 0) m 0).toJ), ("idsAfter", .num (Spec.idsAfter5 m 0))]
     | _, _ => .obj [("crash", .str (lit "no such dialect"))]
   | "recoverok" =>
     -- default dialect | src' : the 0-based positions k such that line k+1 of src' is an unexpected line to which
